@@ -32,7 +32,7 @@ ASSUMPTIONS = [
     "if the dependence relation between iterations is empty all interleavings are Mazurkiewicz-equivalent to the sequential one, so step 1 decides every schedule; step 2 produces the concrete racing schedule when it is not",
     "inputs are integer-valued / per-channel constant so that float32 and float64 intermediates coincide",
 ]
-REQUIRED_OUTCOMES = ["independence/ok", "schedules/ok", "orders/ok", "conformance/ok", "split_conformance/ok"]
+REQUIRED_OUTCOMES = ["independence/ok", "schedules/ok", "orders/ok", "conformance/ok", "conformance/large_ok", "split_conformance/ok"]
 
 KERNELS = ["downsample_1d_mean_parallel", "downsample_2d_mean_parallel", "extract_tim", "extract_bpass", "mask_channels", "dedisperse", "invert_freq",
            "subband", "remove_zerodm", "compute_online_moments", "compute_online_moments_basic"]
@@ -201,6 +201,71 @@ def _cases(kernel: str, purpose: str):
                            "outs": [1], "ref": ref}
     else:
         raise KeyError(kernel)
+
+
+def _large_cases(kernel: str):
+    """One case of ordinary size per kernel (thousands of iterations per thread): code selected by a size threshold, and per-thread partial results,
+    only exist here. Data stay exact under the sequential definition; the time-reducing kernel gets +-2**26 excursions that are NOT exact under any
+    regrouping of the sum."""
+    NS = 16387
+    if kernel == "downsample_1d_mean_parallel":
+        x = _labels(50001 * 3 + 1)
+        yield {"params": ["large", 50001, 3], "args": lambda: [x.copy(), 3], "names": ["array", "factor"], "outs": "ret"}
+    elif kernel == "downsample_2d_mean_parallel":
+        d1, d2 = 4099 * 2 + 1, 8
+        x = _labels(d1 * d2)
+        yield {"params": ["large", d1, d2], "args": lambda: [x.copy(), 2, 2, d1, d2], "names": ["array", "factor1", "factor2", "dim1", "dim2"], "outs": "ret"}
+    elif kernel == "extract_tim":
+        C = 16
+        x = _labels(NS * C)
+        out0 = np.full(NS + 1, -1.0, dtype=np.float32)
+        yield {"params": ["large", NS, C], "args": lambda: [x.copy(), out0.copy(), C, NS, 0], "names": ["inarray", "outarray", "nchans", "nsamps", "index"], "outs": [1]}
+    elif kernel == "extract_bpass":
+        C = 8
+        t = np.arange(NS)
+        col = np.where(t % 1024 == 0, 2.0**26, np.where(t % 1024 == 256, -(2.0**26), np.where(t % 1024 < 256, 0.0, 1.0))).astype(np.float32)
+        x = np.repeat(col[:, None], C, axis=1) * (1 + (np.arange(C) % 2))[None, :].astype(np.float32)
+        out0 = np.zeros(C, dtype=np.float32)
+        yield {"params": ["large_excursions", NS, C], "args": lambda: [x.ravel().copy(), out0.copy(), C, NS], "names": ["inarray", "outarray", "nchans", "nsamps"], "outs": [1]}
+        x2 = _labels(5000 * 64)
+        out2 = np.zeros(64, dtype=np.float32)
+        yield {"params": ["large", 5000, 64], "args": lambda: [x2.copy(), out2.copy(), 64, 5000], "names": ["inarray", "outarray", "nchans", "nsamps"], "outs": [1]}
+    elif kernel == "mask_channels":
+        C, ns = 64, 5000
+        x = _labels(ns * C)
+        m = np.arange(C) % 3 == 0
+        yield {"params": ["large", C, ns], "args": lambda: [x.copy(), m.copy(), np.float32(9.0), C, ns], "names": ["array", "mask", "maskvalue", "nchans", "nsamps"], "outs": [0]}
+    elif kernel in ("dedisperse", "subband"):
+        C = 8
+        d = np.array([0, 1, 5, 9, 14, 20, 27, 35], dtype=np.int32)
+        md = 35
+        for nout in (NS, 5):  # 5: a tail block with fewer output samples than threads
+            ns = nout + md
+            x = _labels(ns * C)
+            if kernel == "dedisperse":
+                out0 = np.full(nout + 1, 0.5, dtype=np.float32)
+                yield {"params": ["large", nout, C], "args": lambda x=x, out0=out0, ns=ns: [x.copy(), out0.copy(), d.copy(), md, C, ns, 0],
+                       "names": ["inarray", "outarray", "delays", "maxdelay", "nchans", "nsamps", "index"], "outs": [1]}
+            else:
+                c2s = (np.arange(C, dtype=np.int32) // 4).astype(np.int32)
+                out0 = np.full(nout * 2 + 1, 0.25, dtype=np.float32)
+                yield {"params": ["large", nout, C], "args": lambda x=x, out0=out0, ns=ns: [x.copy(), out0.copy(), d.copy(), c2s.copy(), md, C, 2, ns],
+                       "names": ["inarray", "outarray", "delays", "chan_to_sub", "maxdelay", "nchans", "nsubs", "nsamps"], "outs": [1]}
+    elif kernel == "invert_freq":
+        x = _labels(NS * 8)
+        yield {"params": ["large", NS, 8], "args": lambda: [x.copy(), 8, NS], "names": ["array", "nchans", "nsamps"], "outs": "ret"}
+    elif kernel == "remove_zerodm":
+        C = 8
+        x = (_labels(NS * C) * 8).astype(np.float32)
+        b = (np.arange(C, dtype=np.float32) + 1) * 8
+        w = np.full(C, 1.0 / C, dtype=np.float32)
+        yield {"params": ["large", NS, C], "args": lambda: [x.copy(), np.full(NS * C, -3.0, dtype=np.float32), b.copy(), w.copy(), C, NS],
+               "names": ["inarray", "outarray", "bpass", "chanwts", "nchans", "nsamps"], "outs": [1]}
+    elif kernel in ("compute_online_moments", "compute_online_moments_basic"):
+        C, ns = 130, 1031
+        vals = (np.arange(C, dtype=np.float32) % 17 - 3) * 2.5
+        x = np.tile(vals, ns).astype(np.float32)
+        yield {"params": ["large", C, ns], "args": lambda: [x.copy(), _moments(C), 0], "names": ["array", "moments", "startflag"], "outs": [1]}
 
 
 def _pyfunc(kernel):
@@ -491,6 +556,40 @@ def _conformance_one(kernel, shard, res, only):
                               f"params {case['params']}: threads={bad[0]} chunksize={bad[1]} repetition={bad[2]}")
                 continue
             res.outcome("conformance/ok")
+            res.nontrivial += 1
+        # ordinary sizes: python definition (sequential) vs compiled at 1 thread vs compiled at several thread counts / chunk sizes
+        for case in _large_cases(kernel):
+            if only is not None and [kernel, case["params"]] != only:
+                continue
+            cs = {"shard": shard, "inner": [kernel, case["params"]]}
+            raw = case["args"]()
+            py = _collect(case, raw, pyf(*raw))
+            numba.set_num_threads(1)
+            raw = case["args"]()
+            base = _collect(case, raw, disp(*raw))
+            res.evaluations += 1
+            if not _same(base, py):
+                res.violation({"site": f"kernels.{kernel}", "symptom": "compiled kernel differs from its python definition / numpy reference on exact inputs", "size": "large"}, cs,
+                              f"params {case['params']}")
+                continue
+            bad = None
+            for nt in sorted({2, 3, 5, 7, 11, maxt} & set(counts)):
+                numba.set_num_threads(nt)
+                for ch in (0, 5, 1000):
+                    for rep in range(2):
+                        numba.set_parallel_chunksize(ch)
+                        raw = case["args"]()
+                        got = _collect(case, raw, disp(*raw))
+                        numba.set_parallel_chunksize(0)
+                        res.evaluations += 1
+                        res.count("compiled_runs")
+                        if not _same(got, base):
+                            bad = bad or (nt, ch, rep)
+            if bad:
+                res.violation({"site": f"kernels.{kernel}", "symptom": "compiled result depends on thread count / chunk size / repetition", "size": "large"}, cs,
+                              f"params {case['params']}: threads={bad[0]} chunksize={bad[1]} repetition={bad[2]}")
+                continue
+            res.outcome("conformance/large_ok")
             res.nontrivial += 1
     finally:
         numba.set_num_threads(maxt)
